@@ -86,7 +86,12 @@ func usesOfGlobal(f *ssa.Function, collect func(g *ssa.Global, u globalUse)) {
 			case ssa.CallInstruction:
 				for _, a := range x.Common().Args {
 					if g := rootGlobal(a); g != nil {
-						// the address of (part of) the variable is handed to a callee
+						// the address of (part of) the variable is handed to a callee: one of the repository
+						// that only reads through it is a read
+						if how, _, decided := addrIntoCallee(x, a, 0, map[ssa.Value]bool{}); decided && how == "" {
+							collect(g, globalUse{f, x.Pos(), "read"})
+							continue
+						}
 						collect(g, globalUse{f, x.Pos(), "escape:" + shortName(core.CalleeName(x.Common()))})
 					}
 				}
@@ -749,10 +754,35 @@ func refMutationAddr(addr ssa.Value, depth int, seen map[ssa.Value]bool) (string
 			}
 		case *ssa.DebugRef:
 		case ssa.CallInstruction:
+			if how, p, decided := addrIntoCallee(y, addr, depth, seen); decided {
+				if how != "" {
+					return how, p
+				}
+				continue
+			}
 			return "address of shared element handed to " + shortName(core.CalleeName(y.Common())), y.Pos()
 		default:
 			return "address of shared element escapes", r.Pos()
 		}
 	}
 	return "", token.NoPos
+}
+
+// addrIntoCallee follows an address handed to a function of the repository whose body is
+// known: what the callee does with the corresponding parameter decides. decided is false
+// for any other callee.
+func addrIntoCallee(call ssa.CallInstruction, addr ssa.Value, depth int, seen map[ssa.Value]bool) (string, token.Pos, bool) {
+	callee := call.Common().StaticCallee()
+	if callee == nil || len(callee.Blocks) == 0 || !core.RepoFunc(callee) {
+		return "", token.NoPos, false
+	}
+	for i, a := range call.Common().Args {
+		if a != addr || i >= len(callee.Params) {
+			continue
+		}
+		if how, p := refMutationAddr(callee.Params[i], depth+1, seen); how != "" {
+			return how + " (in " + callee.Name() + ")", p, true
+		}
+	}
+	return "", token.NoPos, true
 }
